@@ -6,8 +6,9 @@
 EXTENDS TLC, FiniteSets
 
 CONSTANTS Kinds,   \* abstract kinds of baseline data: "ok", "dq", "poor", "dq_poor"
-          DTypes,  \* what is passed to predict: "own_reporting", "own_baseline", "foreign", "foreign2" (the data classes of the
-                   \* two other model families), "frame" (a bare DataFrame)
+          DTypes,  \* what is passed to predict: "own_reporting", "own_baseline", "fit_data" (the very data object the model was
+                   \* fitted on - same class and zone by construction), "foreign", "foreign2" (the data classes of the two other
+                   \* model families), "frame" (a bare DataFrame)
           TZs      \* "same", "other" (different UTC offset), "other_same_offset" (another zone that shares the
                    \* baseline zone's UTC offset throughout the reporting data)
 
@@ -53,6 +54,7 @@ Refit(k, ign) ==
 
 (* predict(): when several causes hold at once the statement only demands that it raises *)
 Predict(d, tz, ign) ==
+    /\ (d = "fit_data" => tz = "same")   \* the object the model was fitted on is in the baseline's zone by construction
     /\ UNCHANGED <<fitted, kind, mdq, stored>>
     /\ last' = Rec("predict", d, tz, ign,
                    IF ~fitted \/ d \in {"foreign", "foreign2", "frame"} \/ tz # "same"
